@@ -127,15 +127,20 @@ def gen_new_batch(r: random.Random, canonical_ms=True):
     }
 
 
-def impl_write(batch_obj):
+def impl_write(batch_obj, lead: bytes = b""):
+    """write_batch into a buffer that already holds `lead`; returns what was appended"""
     from kio.records.writers import write_batch
 
     buf = io.BytesIO()
+    buf.write(lead)
     try:
         write_batch(buf, batch_obj)
     except Exception as e:  # noqa
         return ("err", err_name(e))
-    return ("ok", buf.getvalue())
+    out = buf.getvalue()
+    if out[:len(lead)] != lead:
+        return ("err", "Other:OverwroteEarlierBytes")
+    return ("ok", out[len(lead):])
 
 
 def impl_read(data: bytes):
